@@ -6,3 +6,188 @@ Import ListNotations.
 Lemma a_add_spec t x y : a_add t x y =
   match x, y with Some a, Some b => if inb t (vadd a b) then Some (vadd a b) else None | _, _ => None end.
 Proof. destruct x, y; reflexivity. Qed.
+
+(* ---------- equality test ---------- *)
+Lemma a_eqb_refl x : a_eqb x x = true.
+Proof.
+  destruct x as [a|]; [|reflexivity]. cbn [a_eqb]. rewrite Nat.eqb_refl. cbn [andb].
+  induction a as [|h t IH]; [reflexivity|]. cbn [combine forallb fst snd]. rewrite Nat.eqb_refl. exact IH.
+Qed.
+Lemma a_eqb_eq x y : a_eqb x y = true -> x = y.
+Proof.
+  destruct x as [a|], y as [b|]; cbn [a_eqb]; try discriminate; [|reflexivity].
+  intros H. apply andb_prop in H as [Hl H]. apply Nat.eqb_eq in Hl. f_equal.
+  revert b Hl H. induction a as [|h t IH]; intros [|h' t'] Hl H; try discriminate; [reflexivity|].
+  cbn [combine forallb fst snd] in H. apply andb_prop in H as [E H]. apply Nat.eqb_eq in E. subst h'.
+  f_equal. apply IH; [cbn in Hl; lia|exact H].
+Qed.
+Lemma a_eqb_neq x y : x <> y -> a_eqb x y = false.
+Proof. intros H. destruct (a_eqb x y) eqn:E; [|reflexivity]. apply a_eqb_eq in E. contradiction. Qed.
+
+(* ---------- the enumerated domain ---------- *)
+Lemma product_ranges_spec : forall maxs v,
+  In v (product_ranges maxs) <-> length v = length maxs /\ forallb (fun p => Nat.leb (fst p) (snd p)) (combine v maxs) = true.
+Proof.
+  induction maxs as [|m t IH]; intros v; cbn [product_ranges].
+  - split; [intros [<-|[]]; split; reflexivity|]. intros [H _]. destruct v; [left; reflexivity|discriminate].
+  - rewrite in_flat_map. split.
+    + intros [x [Hx Hv]]. apply in_map_iff in Hv as [w [<- Hw]]. apply IH in Hw as [Hl Hb]. apply in_seq in Hx.
+      split; [cbn; lia|]. cbn [combine forallb fst snd]. rewrite Hb. rewrite (proj2 (Nat.leb_le x m)) by lia. reflexivity.
+    + intros [Hl Hb]. destruct v as [|x w]; [discriminate|]. cbn [combine forallb fst snd] in Hb. apply andb_prop in Hb as [Hx Hb].
+      apply Nat.leb_le in Hx. exists x. split; [apply in_seq; lia|]. apply in_map. apply IH. split; [cbn in Hl; lia|exact Hb].
+Qed.
+
+Lemma NoDup_app_disj {B} : forall (l1 l2 : list B), NoDup l1 -> NoDup l2 -> (forall x, In x l1 -> In x l2 -> False) -> NoDup (l1 ++ l2).
+Proof.
+  induction l1 as [|x l1 IH]; intros l2 H1 H2 H; cbn [app]; [exact H2|]. inversion H1; subst. constructor.
+  - rewrite in_app_iff. intros [Hc|Hc]; [contradiction|]. apply (H x); [left; reflexivity|exact Hc].
+  - apply IH; auto. intros y Hy1 Hy2. apply (H y); [right; exact Hy1|exact Hy2].
+Qed.
+
+Lemma NoDup_flat_map {A B} (f : A -> list B) (l : list A) :
+  NoDup l -> (forall a, In a l -> NoDup (f a)) ->
+  (forall a a' b, In a l -> In a' l -> In b (f a) -> In b (f a') -> a = a') -> NoDup (flat_map f l).
+Proof.
+  induction l as [|a l IH]; intros Hnd Hf Hdisj; cbn [flat_map]; [constructor|].
+  inversion Hnd as [|? ? Ha Hnd']; subst.
+  apply NoDup_app_disj.
+  - apply Hf. left. reflexivity.
+  - apply IH; [exact Hnd'|intros x Hx; apply Hf; right; exact Hx|].
+    intros x x' b Hx Hx'. apply Hdisj; right; assumption.
+  - intros b Hb1 Hb2. apply in_flat_map in Hb2 as [a' [Ha' Hb2]].
+    assert (a = a') by (apply (Hdisj a a' b); [left; reflexivity|right; exact Ha'|exact Hb1|exact Hb2]). subst. contradiction.
+Qed.
+
+Lemma NoDup_map_inj {A B} (f : A -> B) l : (forall x y, f x = f y -> x = y) -> NoDup l -> NoDup (map f l).
+Proof.
+  intros Hinj. induction 1 as [|a l Ha Hnd IH]; cbn [map]; constructor; [|exact IH].
+  intros Hc. apply in_map_iff in Hc as [y [E Hy]]. apply Hinj in E. subst. contradiction.
+Qed.
+
+Lemma product_ranges_nodup : forall maxs, NoDup (product_ranges maxs).
+Proof.
+  induction maxs as [|m t IH]; cbn [product_ranges]; [repeat constructor; intros []|].
+  apply NoDup_flat_map; [apply seq_NoDup| |].
+  - intros x _. apply NoDup_map_inj; [intros a b E; injection E; auto|exact IH].
+  - intros x x' b _ _ H1 H2. apply in_map_iff in H1 as [w [<- _]]. apply in_map_iff in H2 as [w' [E _]]. injection E; auto.
+Qed.
+
+(* plain types: the domain enumerates exactly the in-bounds vectors, without repetition *)
+Theorem domain_valid_plain_spec maxs v : In v (domain_valid (plain maxs)) <-> inb (plain maxs) v = true.
+Proof.
+  unfold domain_valid, inb, plain, leb_all. cbn [a_tally a_max]. rewrite andb_true_r, product_ranges_spec. split.
+  - intros [Hl Hb]. rewrite Hl, Nat.eqb_refl, Hb. reflexivity.
+  - intros H. apply andb_prop in H as [Hl Hb]. apply Nat.eqb_eq in Hl. split; assumption.
+Qed.
+Theorem domain_valid_plain_nodup maxs : NoDup (domain_valid (plain maxs)).
+Proof. apply product_ranges_nodup. Qed.
+
+Lemma domain_nodup_of t : NoDup (domain_valid t) -> NoDup (domain t).
+Proof.
+  intros H. unfold domain. apply NoDup_app_disj.
+  - apply NoDup_map_inj; [intros a b E; injection E; auto|exact H].
+  - repeat constructor. intros [].
+  - intros x Hx [<-|[]]. apply in_map_iff in Hx as [y [E _]]. discriminate.
+Qed.
+
+(* histogram over a duplicate-free domain that contains every value: the counts add up to the number of values *)
+Lemma indicator_sum (dom : list aval) v : NoDup dom -> In v dom ->
+  sum_nat (map (fun e => if a_eqb e v then 1 else 0) dom) = 1.
+Proof.
+  induction dom as [|e dom IH]; intros Hnd Hin; [destruct Hin|]. inversion Hnd as [|? ? He Hnd']; subst.
+  cbn [map sum_nat fold_right]. destruct Hin as [->|Hin].
+  - rewrite a_eqb_refl. assert (Z : sum_nat (map (fun e => if a_eqb e v then 1 else 0) dom) = 0).
+    { clear IH Hnd Hnd'. induction dom as [|x dom IH]; [reflexivity|]. cbn [map sum_nat fold_right].
+      rewrite a_eqb_neq by (intros ->; apply He; left; reflexivity). cbn [Nat.add]. apply IH. intros Hc. apply He. right. exact Hc. }
+    unfold sum_nat in *. rewrite Z. reflexivity.
+  - rewrite a_eqb_neq by (intros ->; contradiction). cbn [Nat.add]. apply IH; assumption.
+Qed.
+
+Lemma sum_nat_map_add {A} (f g : A -> nat) l : sum_nat (map (fun a => f a + g a) l) = sum_nat (map f l) + sum_nat (map g l).
+Proof. induction l as [|a l IH]; [reflexivity|]. cbn [map sum_nat fold_right] in *. unfold sum_nat in *. rewrite IH. lia. Qed.
+
+Theorem histogram_total t vals : NoDup (domain t) -> (forall v, In v vals -> In v (domain t)) ->
+  sum_nat (histogram t vals) = length vals.
+Proof.
+  intros Hnd. unfold histogram. induction vals as [|v vals IH]; intros Hin.
+  - cbn [filter length]. clear. induction (domain t) as [|e l IHl]; [reflexivity|]. cbn [map sum_nat fold_right] in *. exact IHl.
+  - rewrite (map_ext _ (fun e => (if a_eqb e v then 1 else 0) + length (filter (a_eqb e) vals))).
+    + rewrite sum_nat_map_add, IH by (intros w Hw; apply Hin; right; exact Hw).
+      rewrite indicator_sum; [reflexivity|exact Hnd|apply Hin; left; reflexivity].
+    + intros e. cbn [filter]. destruct (a_eqb e v); reflexivity.
+Qed.
+
+(* ---------- tally types ---------- *)
+Lemma app_inj_len {A} (a b a' b' : list A) : length a = length a' -> a ++ b = a' ++ b' -> a = a' /\ b = b'.
+Proof.
+  revert a'. induction a as [|x a IH]; intros [|x' a'] Hl E; try discriminate; [split; [reflexivity|exact E]|].
+  cbn [app] in E. injection E as -> E. cbn in Hl. destruct (IH a' ltac:(lia) E) as [-> ->]. split; reflexivity.
+Qed.
+
+Definition single (k c : nat) : list (list nat) := filter (fun x => Nat.leb (sum_nat x) k) (product_ranges (repeat k c)).
+
+Lemma single_spec k c w : In w (single k c) <->
+  length w = c /\ forallb (fun p => Nat.leb (fst p) (snd p)) (combine w (repeat k c)) = true /\ (sum_nat w <= k)%nat.
+Proof.
+  unfold single. rewrite filter_In, product_ranges_spec, repeat_length, Nat.leb_le. tauto.
+Qed.
+Lemma single_nodup k c : NoDup (single k c).
+Proof. unfold single. apply NoDup_filter. apply product_ranges_nodup. Qed.
+
+Lemma domain_valid_tally_eq n k c : domain_valid (tally n k c)
+  = flat_map (fun n' => flat_map (fun w => map (fun wo => n' :: w ++ wo) (single k c)) (single k c)) (seq 0 (S n)).
+Proof. reflexivity. Qed.
+
+Lemma forallb_combine_app {A B} (f : A * B -> bool) (a a' : list A) (b b' : list B) : length a = length b ->
+  forallb f (combine (a ++ a') (b ++ b')) = forallb f (combine a b) && forallb f (combine a' b').
+Proof.
+  revert b. induction a as [|x a IH]; intros [|y b] Hl; try discriminate; [reflexivity|].
+  cbn [app combine forallb]. rewrite IH by (cbn in Hl; lia). apply andb_assoc.
+Qed.
+
+Theorem domain_valid_tally_spec n k c v : In v (domain_valid (tally n k c)) <-> inb (tally n k c) v = true.
+Proof.
+  rewrite domain_valid_tally_eq. unfold inb, tally, leb_all. cbn [a_max a_tally].
+  replace (2 * c)%nat with (c + c)%nat by lia. rewrite repeat_app. split.
+  - intros H. apply in_flat_map in H as [n' [Hn H]]. apply in_flat_map in H as [w [Hw H]]. apply in_map_iff in H as [wo [<- Hwo]].
+    apply in_seq in Hn. apply single_spec in Hw as [Lw [Bw Sw]]. apply single_spec in Hwo as [Lwo [Bwo Swo]].
+    cbn [length]. rewrite !app_length, !repeat_length, Lw, Lwo, Nat.eqb_refl. cbn [andb combine forallb fst snd].
+    rewrite (proj2 (Nat.leb_le n' n)) by lia. cbn [andb].
+    rewrite forallb_combine_app by (rewrite repeat_length; exact Lw). rewrite Bw, Bwo. cbn [andb skipn].
+    rewrite firstn_app, Lw, Nat.sub_diag, firstn_all2 by lia. cbn [firstn]. rewrite app_nil_r.
+    rewrite (proj2 (Nat.leb_le _ _) Sw). cbn [andb].
+    rewrite skipn_app, Lw, Nat.sub_diag, skipn_all2 by lia. cbn [app skipn].
+    rewrite firstn_all2 by lia. apply Nat.leb_le. exact Swo.
+  - intros H. apply andb_prop in H as [H1 H2]. apply andb_prop in H1 as [Hl Hb]. apply andb_prop in H2 as [S1 S2].
+    apply Nat.eqb_eq in Hl. destruct v as [|n' rest]; [discriminate|]. cbn [length] in Hl. rewrite app_length, !repeat_length in Hl.
+    cbn [combine forallb fst snd] in Hb. apply andb_prop in Hb as [Hn Hb]. apply Nat.leb_le in Hn.
+    cbn [skipn] in S1. apply Nat.leb_le in S1. apply Nat.leb_le in S2.
+    set (w := firstn c rest) in *. set (wo := skipn c rest).
+    assert (Er : rest = w ++ wo) by (symmetry; apply firstn_skipn).
+    assert (Lw : length w = c) by (unfold w; rewrite firstn_length; lia).
+    assert (Lwo : length wo = c) by (unfold wo; rewrite skipn_length; lia).
+    rewrite Er in Hb. rewrite forallb_combine_app in Hb by (rewrite repeat_length; exact Lw). apply andb_prop in Hb as [Bw Bwo].
+    assert (Swo : (sum_nat wo <= k)%nat).
+    { replace (skipn (S c) (n' :: rest)) with wo in S2 by reflexivity. rewrite firstn_all2 in S2 by lia. exact S2. }
+    apply in_flat_map. exists n'. split; [apply in_seq; lia|]. apply in_flat_map. exists w. split; [apply single_spec; auto|].
+    apply in_map_iff. exists wo. split; [rewrite Er; reflexivity|apply single_spec; auto].
+Qed.
+
+Theorem domain_valid_tally_nodup n k c : NoDup (domain_valid (tally n k c)).
+Proof.
+  rewrite domain_valid_tally_eq. apply NoDup_flat_map; [apply seq_NoDup| |].
+  - intros n' _. apply NoDup_flat_map; [apply single_nodup| |].
+    + intros w _. apply NoDup_map_inj; [|apply single_nodup]. intros a b E. injection E as E. apply app_inv_head in E. exact E.
+    + intros w w' b Hw Hw' H1 H2. apply in_map_iff in H1 as [wo [<- Hwo]]. apply in_map_iff in H2 as [wo' [E Hwo']].
+      injection E as E. apply single_spec in Hw as [Lw _]. apply single_spec in Hw' as [Lw' _].
+      symmetry. apply (app_inj_len w' wo' w wo); [lia|exact E].
+  - intros a a' b _ _ H1 H2. apply in_flat_map in H1 as [w [_ H1]]. apply in_map_iff in H1 as [wo [<- _]].
+    apply in_flat_map in H2 as [w' [_ H2]]. apply in_map_iff in H2 as [wo' [E _]]. injection E; auto.
+Qed.
+
+Lemma clip_in_domain_tally n k c v : In (clip (tally n k c) v) (domain (tally n k c)).
+Proof.
+  unfold clip, domain. destruct (inb (tally n k c) v) eqn:E; apply in_or_app.
+  - left. apply in_map. apply domain_valid_tally_spec. exact E.
+  - right. left. reflexivity.
+Qed.
